@@ -239,8 +239,9 @@ oppop[opmap["RERAISE"]] = 1
 
 def extended_format_BINARY_OP(opc, instructions) -> Tuple[str, Optional[int]]:
     opname = _nb_ops[instructions[0].argval][1]
-    if opname == "%":
-        opname = "%%"
+    # The operator becomes part of a "%" format string: "%" and "%=" need
+    # their percent sign doubled.
+    opname = opname.replace("%", "%%")
     return extended_format_binary_op(opc, instructions, f"%s {opname} %s")
 
 
